@@ -1,6 +1,7 @@
 package rules
 
 import (
+	"math/big"
 	"fmt"
 	"go/token"
 	"go/types"
@@ -49,6 +50,43 @@ func tierOf(t types.Type) (int, string) {
 
 func runC10(p *core.Prog, r *core.Report, tier string) {
 	ds := core.NewDescriber()
+
+	// ---- (r) amounts are configured in ether and compared in wei: the conversion factor is 10^18 wherever it is
+	// declared (decimal.New(value, exponent) = value x 10^exponent) ----
+	nWei := 0
+	for _, f := range p.SrcFuncs() {
+		if f.Name() != "init" || f.Parent() != nil {
+			continue
+		}
+		core.EachInstr(f, func(in ssa.Instruction) {
+			st, ok := in.(*ssa.Store)
+			if !ok {
+				return
+			}
+			g, ok := st.Addr.(*ssa.Global)
+			if !ok || strings.ToLower(g.Name()) != "weipereth" {
+				return
+			}
+			nWei++
+			okVal := false
+			what := ds.D(st.Val).String()
+			if c, ok := st.Val.(*ssa.Call); ok && strings.HasSuffix(core.CalleeName(c.Common()), "decimal.New") && len(c.Call.Args) == 2 {
+				v, ok1 := c.Call.Args[0].(*ssa.Const)
+				e, ok2 := c.Call.Args[1].(*ssa.Const)
+				if ok1 && ok2 && v.Value != nil && e.Value != nil {
+					val := new(big.Int).SetInt64(v.Int64())
+					exp := e.Int64()
+					if exp >= 0 && exp < 40 {
+						val.Mul(val, new(big.Int).Exp(big.NewInt(10), big.NewInt(exp), nil))
+						okVal = val.Cmp(new(big.Int).Exp(big.NewInt(10), big.NewInt(18), nil)) == 0
+						what = "decimal.New(" + v.Value.String() + ", " + e.Value.String() + ") = " + val.String()
+					}
+				}
+			}
+			r.Check(okVal, "C10.r", core.RelPkg(f.Pkg.Pkg.Path())+"|weiPerETH", p.Pos(st.Pos()), "one ether is 10^18 wei", "the factor between ether (as configured) and wei (as compared with bids) is "+what+", not 10^18: every configured minimum value is off by that ratio")
+		})
+	}
+	r.Floor("C10.r declarations of the ether/wei factor", nWei, 2)
 	var fns []*ssa.Function
 	for _, rel := range cfgRels {
 		fns = append(fns, p.FuncsIn(rel)...)
